@@ -1,0 +1,40 @@
+//go:build verif
+
+// Round 6, area K: apps/nsqd - the default every flag is defined with (the clauses are on nsqdFlagSet in zz_contracts_r5I_verif.go) and the
+// small flag.Value helpers that had no contract. Comment-only file.
+
+package main
+
+// flag.FlagSet.Var(value, name, usage): defines the flag `name` whose default is the CURRENT content of the variable behind `value`.
+// The Var flags of nsqd are --log-level (*lg.LogLevel), --tls-required (*tlsRequiredOption), --tls-min-version (*tlsMinVersionOption) and four
+// lists (*app.StringArray, *app.FloatArray): the value resp. the LENGTH of the list at definition time is recorded, once per candidate
+// type (for a value of another type that record is meaningless - an arbitrary number under this name - and no clause uses it).
+//@ extern[in github.com/nsqio/nsq/apps/nsqd] (*flag.FlagSet).Var(fs, value, name, usage)
+//@   modifies r5IFlags
+//@   onreturn r5IFlags := setadd(r5IFlags, r5IFlagKey(fs, name))
+//@   onreturn r6KFlagDefs := setadd(setadd(setadd(setadd(setadd(r6KFlagDefs, r6KDefInt(fs, name, *unbox(value, "*lg.LogLevel"))), r6KDefInt(fs, name, *unbox(value, "*tlsRequiredOption"))), r6KDefInt(fs, name, *unbox(value, "*tlsMinVersionOption"))),
+//@        r6KDefLen(fs, name, len(*unbox(value, "*app.StringArray")))), r6KDefLen(fs, name, len(*unbox(value, "*app.FloatArray"))))
+
+// ---- flag.Value helpers that had no contract --------------------------------------------------------------------------------------------
+// tlsRequiredOption.Get (flag.Getter: what go-options reads when --tls-required was not given = the DEFAULT): the policy itself, as an int.
+//@ func (t *tlsRequiredOption) Get() interface{}
+//@   props C06 C11
+//@   requires t != nil
+//@   ensures[the-policy] dyntype(result) == typetag("int") && unbox(result, "int") == *t
+//@   modifies
+//@   nochan
+// IsBoolFlag: `--tls-required` without a value means "true" (package flag asks this method).
+//@ func (t *tlsRequiredOption) IsBoolFlag() bool
+//@   props C06 C11
+//@   ensures[bool-flag] result
+//@   modifies
+//@   nochan
+// tlsMinVersionOption.String: the name of the version in the table, else the number; nothing written.
+//@ func (t *tlsMinVersionOption) String() string
+//@   props C06
+//@   requires t != nil
+//@   ensures[known-version-by-name] forall k int :: {tlsVersionTable[k]} 0 <= k && k < len(tlsVersionTable) && tlsVersionTable[k].val == *t && (forall m int :: {tlsVersionTable[m]} 0 <= m && m < k ==> tlsVersionTable[m].val != *t) ==> result == tlsVersionTable[k].str
+//@   modifies
+//@   nochan
+//@   loop 0
+//@     invariant[none-so-far] forall m int :: {tlsVersionTable[m]} 0 <= m && m <= rangeindex && m < len(tlsVersionTable) ==> tlsVersionTable[m].val != *t
